@@ -82,6 +82,21 @@ func routesFor(r *Run) (routes string, outerTimeout string) {
 		return drive.J([]any{map[string]any{
 			"match":  []any{map[string]any{"verif_m1": map[string]any{"id": "one", "need": 1, "at": 0, "eq": 'x'}}},
 			"handle": []any{map[string]any{"handler": "verif_sink", "name": "H", "bufsize": 64}}}}), T
+	case "after-nonterminal":
+		// a route that matches on the first byte and is not terminal, then an undecided route: the timeout
+		// still bounds the matching that continues after the first route
+		return drive.J([]any{
+			map[string]any{"match": []any{map[string]any{"verif_m1": map[string]any{"id": "first", "need": 1, "at": 0, "eq": 2}}},
+				"handle": []any{map[string]any{"handler": "verif_take", "name": "T", "n": 1}}},
+			undecidedRoute("H")}), T
+	case "or-sets":
+		// one route whose first matcher set is undecided for ever and whose second set says no at once
+		f := false
+		return drive.J([]any{map[string]any{
+			"match": []any{
+				map[string]any{"verif_m1": map[string]any{"id": "undecided", "need": never, "at": 0, "eq": 1}},
+				map[string]any{"verif_m2": map[string]any{"id": "no", "need": 0, "const": f}}},
+			"handle": []any{map[string]any{"handler": "verif_sink", "name": "H"}}}}), T
 	}
 	// undecided / wrapper: one undecided route followed by a route that is decided as not matching
 	f := false
@@ -123,7 +138,7 @@ func run(c *fw.Ctx) {
 					}
 				}
 				// extra variants, on tcp
-				for _, v := range []string{"subroute", "http", "wrapper", "errmatcher", "aftermatch"} {
+				for _, v := range []string{"subroute", "http", "wrapper", "errmatcher", "aftermatch", "after-nonterminal", "or-sets"} {
 					idx++
 					cl := "trickle"
 					if v == "wrapper" && int(ph*100)%2 == 1 {
@@ -392,7 +407,7 @@ func runTCP(canary *oracle.Canary, r *Run) *outcome {
 	// (d) fails closed
 	time.Sleep(20 * time.Millisecond)
 	for _, e := range rec.Events() {
-		if e.Kind == "enter" || e.Kind == "fallback" {
+		if (e.Kind == "enter" && e.Who != "T") || e.Kind == "fallback" {
 			o.violations = append(o.violations, fmt.Sprintf("d-handler-after-abort|handler %q was invoked although matching ended without a match", e.Who))
 		}
 	}
